@@ -12,7 +12,7 @@ CONSTANTS
   Dev <- DevIdeal
   MaxLen = 2
   Pool <- PoolRedT
-  Sels <- SelsRedT
+  Sels <- SelsRed
 INVARIANT StoreIsExpected
 INVARIANT NothingLostOrMerged
 INVARIANT PrefixIsExpected
